@@ -60,6 +60,18 @@ class World:
         self.c = c
         self.d = drv.get_driver()
         d = self.d
+        # WebSocket factories call random.seed() (re-seeding from the OS) when they are built, i.e. on every connection attempt;
+        # route arg-less calls to a case-derived value so that the jitter stays a pure function of the drawn case
+        if not hasattr(random, "_verif_orig_seed"):
+            random._verif_orig_seed = random.seed
+        cnt = [0]
+
+        def det_seed(a=None, *args, **kw):
+            if a is None:
+                cnt[0] += 1
+                a = c["seed"] * 1000 + cnt[0]
+            return random._verif_orig_seed(a)
+        random.seed = det_seed
         random.seed(c["seed"])
         self.attempts = []        # dicts: t, idx, outcome, conn, end (time the attempt's connection failed/ended), joined
         self.outcomes = list(c["outcomes"])
